@@ -235,12 +235,12 @@ CLAIMED = {
          "subject; the Go scheduler and memory model are not modelled."),
    technique="Coq proof (inductive invariant + progress over a labelled transition system, all interleavings); schedule-driven correspondence + concurrent oracle + race detector (thorough)"),
  "C18": dict(
-   text=("PARTIAL proof + full correspondence. Coq theorems (5, closed) about the model of upgrade() after the request is "
+   text=("PARTIAL proof + full correspondence. Coq theorems (7, closed) about the model of upgrade() after the request is "
          "written: the read loop conserves the byte stream and reports the head ending at the FIRST blank line for every "
          "segmentation, buffer size and fuel; two runs over transports delivering the same bytes agree on head and frame data "
          "(segmentation independence); the stream ends active iff the result is nil, otherwise terminated, and when active "
          "the bytes handed to the frame decoder followed by what the transport still holds are exactly the bytes after the "
-         "blank line (none lost, none duplicated); a header line parses to the same (name, value) whatever the letter case "
+         "blank line (none lost, none duplicated); the read loop is COMPLETE - a head that ends within the 64 KiB limit is found for every segmentation of the data and every buffer growth - so a conforming response (up to 90 data segments, the bound of the model's loop fuel) is always accepted, on a fresh stream and on one whose handshake buffer has grown; a header line parses to the same (name, value) whatever the letter case "
          "and optional whitespace; lookups are invariant under header order. The implementation is run against a raw server "
          "socket: responses from a grammar (status, protocol version, header set/order/case/whitespace, wrong/missing/"
          "duplicated accept, malformed lines, heads of 1 KiB to 140 KiB), every single cut and every close point of a short "
